@@ -2044,6 +2044,15 @@ class ParameterList(Module):
     def __getitem__(self, i):
         return self._list[i]
 
+    def __setitem__(self, i, p):
+        if not _isinstance(p, Parameter):
+            p = Parameter(p)
+        i = int(i)
+        if i < 0:
+            i += len(self._list)
+        self._list[i] = p
+        self._parameters[str(i)] = p
+
 
 nn = types.ModuleType('torch.nn')
 nn.Module = Module
